@@ -54,6 +54,12 @@ CHECKS['C01'] = dict(
          'operator calls with lambdas) are proved to preserve value, trace and decisions for all expressions with the operator implementations '
          'translated from malt/operators on every run (expression_passes_correct; comparison chains with an overloaded operator are the known '
          'finding chain_refuted); model tied structurally to the real passes (~330 expressions per run), expression semantics validated against CPython. '
+         '(5) the variables pass (variables.py: reads through ag__.ld, del as ld + Undefined placeholder, augmented assignment through a '
+         'preliminary ld) is proved to preserve outcome, event log and store relation for every core-language block started from a store in which '
+         'unbound variables may hold their placeholder, and never to let the placeholder reach user code (variables_pass_correct; '
+         'operand_must_be_wrapped is the witness of the defect repaired in /repo 7e8458c); the model on generic trees is tied to the real pass on whole '
+         'function bodies (~40 per run) and linked to the core-language model by pass_models_agree; semantics validated against CPython with the real '
+         'ag__.ld / ag__.Undefined (~440 runs). '
          'The end-to-end claim (13 passes + loader) is validated, not proved: a differential oracle runs original vs '
          'malt.to_graph(original) on seeded generated programs x decision vectors x option sets (recursive on/off, feature sets) and '
          'compares return value, ordered external-call log, exception type, mutated arguments and module globals.',
